@@ -175,6 +175,31 @@ static void item_long (long it, void *arg)
 	vf_stat_add (st_states, 1);
 }
 
+/* contiguous sweep: EVERY size of a range (mid-range values, neither small nor next to a power of two: 1316, 1472, ...)
+ * on a light set of alignments / operand counts / constants. item = size - SWEEP_LO */
+static int SWEEP_LO = 273, SWEEP_HI;
+static void item_sweep (long it, void *arg)
+{
+	static const int AL[][2] = {{0, 0}, {3, 5}, {1, 0}};
+	static const int CN[] = {1, 2, 3, 8, 17};
+	static const int CS[] = {2, 0x53, 0xe1};
+	int size = SWEEP_LO + (int) it, a, q;
+	long n = 0;
+	(void) arg;
+	vf_slot_set_prop ("C13");
+	for (a = 0; a < 3; a++) {
+		int da = AL[a][0], sa = AL[a][1], pt = (size + a) & 1;
+		one_case (0, size, da, sa, 1, 0, pt); n++;
+		for (q = 0; q < 5; q++) { one_case (1, size, da, sa, CN[q], 0, pt); one_case (2, size, da, sa, CN[q], 0, pt); n += 2; }
+		for (q = 0; q < 3; q++) {
+			one_case (3, size, da, sa, 1, CS[q], pt); one_case (4, size, da, sa, 1, CS[q], pt);
+			one_case (5, size, da, sa, 1, CS[q] & 15, pt); one_case (6, size, da, sa, 1, CS[q] & 15, pt); n += 4;
+		}
+	}
+	vf_stat_add (st_trans, n);
+	vf_stat_add (st_states, 1);
+}
+
 static void item_replay (long it, void *arg)
 {
 	char fn[64]; int size, da, sa, cnt, c, pt, f;
@@ -209,11 +234,13 @@ int main (int argc, char **argv)
 	if (vf_replay_case ()) { vf_pool_run (1, item_replay, NULL, 60); vf_finish (); return 0; }
 	vf_pool_run (NSIZES, item, NULL, 0);
 	vf_pool_run (NLONGS + NMANY, item_long, NULL, 0);
+	SWEEP_HI = g_thorough ? 9000 : 2100;
+	vf_pool_run (SWEEP_HI - SWEEP_LO + 1, item_sweep, NULL, 0);
 	vf_stat_add (st_exec, vf_stat_get (st_trans));
 	vf_stat_add (st_dn, vf_stat_get (st_trans));
 	vf_sample ("of_add_from_multiple_symbols size=13 dalign=3 salign=5 count=11 pattern 0: result equals byte-wise XOR of 11 operands, guards intact");
 	vf_sample ("of_galois_field_2_4_addmul1_compact size=7 c=9: every byte = (9*hi)<<4 | 9*lo XORed into the destination");
-	vf_outcome ("sizes", NSIZES); vf_outcome ("long_sizes", NLONGS); vf_outcome ("large_operand_counts", NMANY); vf_outcome ("kernel_calls", vf_stat_get (st_trans));
+	vf_outcome ("sizes", NSIZES); vf_outcome ("long_sizes", NLONGS); vf_outcome ("large_operand_counts", NMANY); vf_outcome ("contiguous_sweep_sizes", SWEEP_HI - SWEEP_LO + 1); vf_outcome ("kernel_calls", vf_stat_get (st_trans));
 	vf_finish ();
 	return 0;
 }
